@@ -11,6 +11,8 @@
 //                            the document is the sequence of top-level nodes); reply describes what a
 //                            structural pre-order walk of the *real* tree sees and how the stored
 //                            indexes relate to it
+//   build <d> F|D|B <events> drive FormatterToSourceTree / XalanSourceTreeContentHandler with an event sequence and compare
+//                            the stored indexes with the structural walk of the tree built (see doBuild)
 //   after <n1> <n2>          XPathExecutionContext::isNodeAfter(n1, n2)        -> 0 | 1
 //   afterall <d>             isNodeAfter for all ordered pairs of non-document nodes of d -> bit string
 //   new <l>                  MutableNodeRefList::clear
@@ -68,6 +70,12 @@
 #include <xalanc/XercesParserLiaison/XercesDOMSupport.hpp>
 #include <xalanc/XercesParserLiaison/XercesParserLiaison.hpp>
 #include <xalanc/XalanTransformer/XalanTransformer.hpp>
+#include <xalanc/XalanSourceTree/XalanSourceTreeDocument.hpp>
+#include <xalanc/XalanSourceTree/XalanSourceTreeDocumentFragment.hpp>
+#include <xalanc/XalanSourceTree/XalanSourceTreeContentHandler.hpp>
+#include <xalanc/XalanSourceTree/FormatterToSourceTree.hpp>
+#include <xalanc/PlatformSupport/AttributeListImpl.hpp>
+#include <xalanc/PlatformSupport/AttributesImpl.hpp>
 
 #include <cstdio>
 #include <cstdlib>
@@ -147,6 +155,8 @@ struct DocInfo
     std::vector<int>            parent;     // pre-order number of getParentOfNode, -1 for the document
     std::string                 kinds;      // D e a t c p
     std::unique_ptr<XercesDOMParser> parser;
+    std::unique_ptr<XalanSourceTreeDocument>            builtDoc;       // trees built from events (build request)
+    std::unique_ptr<XalanSourceTreeDocumentFragment>    builtFragment;
 };
 
 struct Session
@@ -183,6 +193,7 @@ static void walk(Session& s, int d, DocInfo& di, XalanNode* n, int parentNo)
     switch (n->getNodeType())
     {
     case XalanNode::DOCUMENT_NODE: k = 'D'; break;
+    case XalanNode::DOCUMENT_FRAGMENT_NODE: k = 'F'; break;
     case XalanNode::ELEMENT_NODE: k = 'e'; break;
     case XalanNode::ATTRIBUTE_NODE: k = 'a'; break;
     case XalanNode::TEXT_NODE: k = 't'; break;
@@ -376,6 +387,135 @@ static std::string doDoc(Session& s, int d, const std::string& shape)
     return o.str();
 }
 
+// build <d> <mode> <events>: drive one of the two source-tree builders with an event sequence, then compare the stored
+// indexes with the structural pre-order walk of the tree that was built, for all pairs of nodes.
+//   mode F: FormatterToSourceTree into a document fragment (the way result tree fragments are built)
+//        D: FormatterToSourceTree into a document
+//        B: XalanSourceTreeContentHandler (parser / XalanDocumentBuilder) into a document
+//   events: s<d> startElement with d attributes, x endElement, t characters, c comment, p processingInstruction,
+//           d cdata (F/D only), r charactersRaw (F/D only), w ignorableWhitespace
+static std::string doBuild(Session& s, int d, char mode, const std::string& ev)
+{
+    if (s.rep != 'S') return "bad rep";
+    if (s.docs.count(d)) return "bad duplicate doc";
+    DocInfo& di = s.docs[d];
+    MemoryManager& mm = XalanMemMgrs::getDefaultXercesMemMgr();
+    di.builtDoc.reset(new XalanSourceTreeDocument(mm));
+    XalanNode* root = di.builtDoc.get();
+    const XalanDOMString    eName("e"), tText("tx"), cText("cm"), pTarget("pt"), pData("pd"), cdataText("cd"),
+                            rawText("rw"), wsText(" "), cdataType("CDATA"), aValue("v");
+    int textNo = 0;
+    try
+    {
+        if (mode == 'F' || mode == 'D')
+        {
+            if (mode == 'F')
+            {
+                di.builtFragment.reset(new XalanSourceTreeDocumentFragment(mm, *di.builtDoc));
+                root = di.builtFragment.get();
+            }
+            FormatterToSourceTree   f(di.builtDoc.get(), di.builtFragment.get(), mm);
+            f.startDocument();
+            for (size_t i = 0; i < ev.size(); ++i)
+            {
+                switch (ev[i])
+                {
+                case 's':
+                {
+                    if (i + 1 >= ev.size()) return "bad events";
+                    const int na = ev[++i] - '0';
+                    AttributeListImpl   attrs(mm);
+                    for (int k = 1; k <= na; ++k)
+                    {
+                        XalanDOMString  an("a");
+                        an += XalanDOMChar('0' + k);
+                        attrs.addAttribute(an.c_str(), cdataType.c_str(), aValue.c_str());
+                    }
+                    f.startElement(eName.c_str(), attrs);
+                    break;
+                }
+                case 'x': f.endElement(eName.c_str()); break;
+                case 't': { XalanDOMString t(tText); t += XalanDOMChar('0' + (++textNo % 10)); f.characters(t.c_str(), t.length()); break; }
+                case 'c': f.comment(cText.c_str()); break;
+                case 'p': f.processingInstruction(pTarget.c_str(), pData.c_str()); break;
+                case 'd': f.cdata(cdataText.c_str(), cdataText.length()); break;
+                case 'r': f.charactersRaw(rawText.c_str(), rawText.length()); break;
+                case 'w': f.ignorableWhitespace(wsText.c_str(), wsText.length()); break;
+                default: return "bad events";
+                }
+            }
+            f.endDocument();
+        }
+        else if (mode == 'B')
+        {
+            XalanSourceTreeContentHandler   h(mm, di.builtDoc.get());
+            h.startDocument();
+            const XalanDOMString    empty;
+            for (size_t i = 0; i < ev.size(); ++i)
+            {
+                switch (ev[i])
+                {
+                case 's':
+                {
+                    if (i + 1 >= ev.size()) return "bad events";
+                    const int na = ev[++i] - '0';
+                    AttributesImpl  attrs(mm);
+                    for (int k = 1; k <= na; ++k)
+                    {
+                        XalanDOMString  an("a");
+                        an += XalanDOMChar('0' + k);
+                        attrs.addAttribute(an.c_str(), cdataType.c_str(), aValue.c_str());
+                    }
+                    h.startElement(empty.c_str(), eName.c_str(), eName.c_str(), attrs);
+                    break;
+                }
+                case 'x': h.endElement(empty.c_str(), eName.c_str(), eName.c_str()); break;
+                case 't': { XalanDOMString t(tText); t += XalanDOMChar('0' + (++textNo % 10)); h.characters(t.c_str(), t.length()); break; }
+                case 'c': h.comment(cText.c_str(), cText.length()); break;
+                case 'p': h.processingInstruction(pTarget.c_str(), pData.c_str()); break;
+                case 'w': h.ignorableWhitespace(wsText.c_str(), wsText.length()); break;
+                default: return "bad events";
+                }
+            }
+            h.endDocument();
+        }
+        else
+        {
+            return "bad mode";
+        }
+    }
+    catch (const XalanDOMException&)
+    {
+        return "ERR:dom";
+    }
+    walk(s, d, di, root, -1);
+    di.doc = di.builtDoc.get();
+    // stored indexes against the structural walk: every pair
+    bool allIndexed = true;
+    for (size_t k = 0; k < di.nodes.size(); ++k) if (!di.nodes[k]->isIndexed()) allIndexed = false;
+    std::ostringstream o;
+    o << "built n=" << di.nodes.size() << " kinds=" << di.kinds << " parents=";
+    for (size_t k = 1; k < di.parent.size(); ++k) { if (k > 1) o << ","; o << di.parent[k]; }
+    if (!allIndexed)
+    {
+        o << " idx=unindexed";
+        return o.str();
+    }
+    for (size_t a = 0; a < di.nodes.size(); ++a)
+        for (size_t b = a + 1; b < di.nodes.size(); ++b)
+        {
+            const bool ba = s.context->isNodeAfter(*di.nodes[b], *di.nodes[a]);
+            const bool ab = s.context->isNodeAfter(*di.nodes[a], *di.nodes[b]);
+            if (!ba || ab)
+            {
+                o << " idx=disorder(" << a << "," << b << ":" << di.nodes[a]->getIndex() << "," << di.nodes[b]->getIndex() << ")";
+                return o.str();
+            }
+        }
+    o << " idx=preorder";
+    return o.str();
+}
+
 static std::string handle(const std::string& line)
 {
     std::istringstream in(line);
@@ -399,6 +539,10 @@ static std::string handle(const std::string& line)
     if (op == "doc" && t.size() == 3)
     {
         return doDoc(s, atoi(t[1].c_str()), t[2]);
+    }
+    if (op == "build" && t.size() == 4 && t[2].size() == 1)
+    {
+        return doBuild(s, atoi(t[1].c_str()), t[2][0], t[3]);
     }
     if (op == "after" && t.size() == 3)
     {
